@@ -8,6 +8,7 @@ import (
 	"os/exec"
 	"strconv"
 	"strings"
+	"sync/atomic"
 	"time"
 )
 
@@ -96,15 +97,26 @@ func (s *Solver) readLine() string {
 }
 
 // CheckSat returns "sat", "unsat" or "unknown"/"error: ...".
-func (s *Solver) CheckSat() string {
+func (s *Solver) CheckSat() string { return s.check("(check-sat)\n") }
+
+// CheckSatAssuming checks the asserted formulas together with one assumption literal.
+func (s *Solver) CheckSatAssuming(lit string) string {
+	return s.check("(check-sat-assuming (" + lit + "))\n")
+}
+
+func (s *Solver) check(cmd string) string {
 	t0 := time.Now()
-	s.Send("(check-sat)\n")
+	s.Send(cmd)
 	r := s.readLine()
 	for r == "" {
 		r = s.readLine()
 	}
 	s.Queries++
-	s.Time += time.Since(t0)
+	d := time.Since(t0)
+	s.Time += d
+	if qhist != nil {
+		qhistAdd(d, r)
+	}
 	if strings.HasPrefix(r, "(error") {
 		s.Errors++
 		return "error: " + r
@@ -261,3 +273,41 @@ func parseVal(v string) uint64 {
 type engineError struct{ msg string }
 
 func (e engineError) Error() string { return e.msg }
+
+var qhist []int64
+var qhistT []int64
+
+func init() {
+	if os.Getenv("SYMGO_QHIST") != "" {
+		qhist = make([]int64, 16)
+		qhistT = make([]int64, 16)
+	}
+}
+
+func qhistAdd(d time.Duration, r string) {
+	ms := d.Milliseconds()
+	b := 0
+	for ms > 0 {
+		b++
+		ms >>= 1
+	}
+	if b > 15 {
+		b = 15
+	}
+	atomic.AddInt64(&qhist[b], 1)
+	atomic.AddInt64(&qhistT[b], int64(d))
+}
+
+// QHistString reports the query time histogram (log2 buckets of milliseconds).
+func QHistString() string {
+	if qhist == nil {
+		return ""
+	}
+	out := ""
+	for i := range qhist {
+		if qhist[i] > 0 {
+			out += fmt.Sprintf("<%dms: n=%d total=%.1fs\n", 1<<uint(i), qhist[i], float64(qhistT[i])/1e9)
+		}
+	}
+	return out
+}
